@@ -249,3 +249,29 @@ func TestVerif_C10_Configs(t *testing.T) {
 		},
 	}, vfC10Gen, vfC10Run)
 }
+
+// TestVerif_C10_Histories rides the C10 predicate on the pion-pair renegotiation histories
+// that C06/C09 use (both peers with independently generated MediaEngine configurations, so
+// each side sees remapped payload types and extmap ids from the other).
+func TestVerif_C10_Histories(t *testing.T) {
+	vfProperty(t, "C10", vfOpts{
+		Rule: "pair histories: non-trivial = at least two completed rounds between peers of which at least one has a generated (non-default) MediaEngine configuration",
+	}, func(v *vfT) vfFamBPCase {
+		return vfFamBGenPair(v.R, 1, 4, true)
+	}, func(v *vfT, c vfFamBPCase) {
+		var all []vfFamBFinding
+		st := vfFamBRunPair(v, c, func(ev vfFamBPEvent) {
+			d, err := vfFamBParse(ev.Text)
+			if err != nil {
+				all = append(all, vfFamBFinding{"C10/unparsable", fmt.Sprintf("round %d peer %d %s rejected by pion/sdp: %v", ev.Round, ev.Peer, ev.Kind, err)})
+				return
+			}
+			v.Label("hist-desc:" + ev.Kind)
+			all = append(all, vfFamBCheckC10(d, fmt.Sprintf("round %d peer %d %s", ev.Round, ev.Peer, ev.Kind), true, false, nil, nil)...)
+		}, nil, nil)
+		if st.Rounds >= 2 && (!c.Sides[0].DefaultME || !c.Sides[1].DefaultME) {
+			v.NonTrivial()
+		}
+		vfFamBReport(v, all)
+	})
+}
